@@ -25,7 +25,8 @@ RULE = ('(universes) DynamicUniverse / StaticUniverse alone: entry maps over 1-8
         'exactly on an instant and one a minute after it in one case; (universes) a query exactly at an entry; '
         '(optimisers) >= 2 assets.'
         ' Round-5 reach: the universe-driven alpha model is also built with its optional data-handler argument (a handler pricing every other asset): its signals still cover exactly the members.'
-        " Round-10 reach: configured static lists naming a symbol twice; `static` part: a second strategy with its own portfolio and static universe on the same account (after every rebalance each portfolio holds assets of its own universe only).")
+        " Round-10 reach: configured static lists naming a symbol twice; `static` part: a second strategy with its own portfolio and static universe on the same account (after every rebalance each portfolio holds assets of its own universe only)."
+        " Round-11 reach: whole-number / boolean weight dictionaries for the optimisers; entry dates given as datetime.datetime; a MomentumSignal built over the universe takes up later entrants before the universe is queried.")
 ASSUMPTIONS = [
     'UTC-aware timestamps; up to 8 assets (direct) / 5 symbols (sessions); sessions of 8-60 days',
     'session markets are dense with data from 9 days before the start (an unpriced member is C06/C07\'s subject)',
@@ -43,8 +44,21 @@ def run_universe(case):
     for i, z in enumerate(zones):
         if z and i < len(entries) and entries[i] is not None:
             entries[i] = entries[i].tz_convert(z)           # the same instant, written in another time zone
+    if case.get('pydatetime'):
+        # entry dates given as time-zone-aware datetime.datetime objects (they compare with pandas timestamps)
+        entries = [e if e is None or not (1680 < e.year < 2260) else e.to_pydatetime() for e in entries]
     amap = dict(zip(assets, entries))
     dyn = q.DynamicUniverse(dict(amap))
+    if case.get('signal_on_universe') is not None and case['queries']:
+        # a signal was built over the universe at the first query instant and has since taken up later entrants (it keeps
+        # a list of tracked assets of its own): the universe's answers are unaffected
+        qm0 = case['queries'][0]
+        t0_ = FAR[qm0] + pd.Timedelta(days=31) if isinstance(qm0, str) else T0 + pd.Timedelta(seconds=qm0)
+        try:
+            sg_ = q.MomentumSignal(t0_, dyn, [2])
+            sg_.update_assets(t0_ + pd.Timedelta(days=case['signal_on_universe']))
+        except Exception:                                         # noqa
+            pass
     stat = q.StaticUniverse(list(assets))
     # a configured list may name a symbol more than once (two watch-lists joined): it is yielded as configured
     dup_list = list(assets) + list(assets[:case.get('dup', 0)])
@@ -55,6 +69,8 @@ def run_universe(case):
     half = kit.StubDH({a: (10.0, 10.0) for a in assets[::2]})
     alphas = [q.SingleSignalAlphaModel(dyn, signal=0.5), q.SingleSignalAlphaModel(dyn, signal=0.5, data_handler=half)]
     for qm in case['queries']:
+        if qm == 'y9999' and case.get('pydatetime'):
+            continue            # (an instant past year 9999 cannot be compared with a datetime.datetime at all)
         t = FAR[qm] + pd.Timedelta(days=31) if isinstance(qm, str) else T0 + pd.Timedelta(seconds=qm)
         got = dyn.get_assets(t)
         want = [a for a in assets if amap[a] is not None and amap[a] <= t]
@@ -75,6 +91,10 @@ def run_universe(case):
         if any(e is not None and e == t for e in entries):
             exact = True
     cls = ['has_none'] if None in entries else []
+    if case.get('pydatetime'):
+        cls.append('entries_as_datetime_objects')
+    if case.get('signal_on_universe') is not None:
+        cls.append('signal_tracking_the_universe_first')
     if case.get('dup'):
         cls.append('static_list_naming_a_symbol_twice')
     if any(zones):
@@ -96,7 +116,9 @@ def universes(draw):
     if draw(st.sampled_from([False, False, True])):
         qs.append(draw(st.sampled_from(['y2300', 'y2300', 'y9999', 'y1968', 'y1968', 'y1700'])))      # ... centuries ahead, or back
     zones = [draw(st.sampled_from([None, None, None, 'America/New_York', 'Asia/Tokyo', 'Europe/London'])) for _ in assets]
-    return {'assets': assets, 'entries': entries, 'queries': qs, 'zones': zones, 'dup': draw(st.sampled_from([0, 0, 1, 2]))}
+    return {'assets': assets, 'entries': entries, 'queries': qs, 'zones': zones, 'dup': draw(st.sampled_from([0, 0, 1, 2])),
+            'pydatetime': draw(st.sampled_from([False, False, True])),
+            'signal_on_universe': draw(st.sampled_from([None, None, 1, 400, 4000]))}
 
 
 def run_optimiser(case):
@@ -141,12 +163,14 @@ def run_optimiser(case):
 
 
 _wval = st.one_of(st.floats(-2, 2).map(lambda x: float('%.4g' % x)), st.sampled_from([0.0, 1.0, -1.0]))
+_wint = st.sampled_from([1, 0, 2, -1, True])            # signals given as whole numbers / flags (e.g. signal=1)
 
 
 @st.composite
 def optimisers(draw):
     assets = draw(st.lists(st.sampled_from(kit.ASSET_POOL), min_size=1, max_size=8, unique=True))
-    w = {a: draw(_wval) for a in assets}
+    wv_ = _wint if draw(st.sampled_from([False, False, False, True])) else _wval
+    w = {a: draw(wv_) for a in assets}
     more = []
     for _ in range(draw(st.sampled_from([0, 0, 1, 2, 3]))):
         if draw(st.booleans()):          # same size, other assets
